@@ -26,7 +26,9 @@ func V_in[K any](k K, c any) bool {
 	switch cv.Kind() {
 	case v_reflect.Map:
 		if !cv.IsValid() || cv.IsNil() { return false }
-		return cv.MapIndex(v_reflect.ValueOf(k)).IsValid()
+		kv := v_reflect.ValueOf(k)
+		if kt := cv.Type().Key(); kv.IsValid() && kv.Type() != kt && kv.Type().ConvertibleTo(kt) && kt.Kind() != v_reflect.Interface && kt.Kind() != v_reflect.String { kv = kv.Convert(kt) }
+		return cv.MapIndex(kv).IsValid()
 	case v_reflect.Slice:
 		for i := 0; i < cv.Len(); i++ { if v_reflect.DeepEqual(cv.Index(i).Interface(), any(k)) { return true } }
 		return false
@@ -95,6 +97,8 @@ func V_rle(a, b V_Real) bool { return a.r.Cmp(b.r) <= 0 }
 func V_req(a, b V_Real) bool { return a.r.Cmp(b.r) == 0 }
 func V_hasPrefix(s, p string) bool { return v_strings.HasPrefix(s, p) }
 func V_hasSuffix(s, p string) bool { return v_strings.HasSuffix(s, p) }
+func V_contains(s, p string) bool { return v_strings.Contains(s, p) }
+func V_after(s, sep string) string { if i := v_strings.Index(s, sep); i >= 0 { return s[i+len(sep):] }; return s }
 func V_itoa(x int) string { return v_strconv.Itoa(x) }
 func V_atoi(s string) int { n, err := v_strconv.ParseInt(s, 10, 64); if err != nil { v_no("atoi of a non-integer") }; return int(n) }
 func V_parseIntOk(s string, bits int) bool { _, err := v_strconv.ParseInt(s, 10, bits); return err == nil }
